@@ -323,7 +323,7 @@ func main() {
 	r := ev.Start("C27", "exploration")
 	r.SetRule("complete product of per-slot outcomes {empty, lookup error, local route x {client connected, no-direct, transport error, dead stream}, remote route x {client connected, no-direct, remote dial error, wrong server} through a real remote tun/server (real handleProxyConn), remote route x {node dial error, node dial no-direct, undecodable status, closed without status} through a scripted remote} ^ 3 slots = 14^3 = 2744 route sets, each run through the real DialClient with a fresh hostname; plus seeded cases with a remote that never answers (3 s status deadline). Distinct = outcome vector x same-client flag; non-trivial = at least one slot holds a route.")
 	r.Assume("'recorded in H's routes' is read as the (client, server) pair of a stored route: a client reached through a server that no route of H names counts as not recorded")
-	r.Assume("which of not-found / not-connected is returned when routes exist and at least one attempt failed with something other than no-direct is not pinned by the statement (the code falls back to not-found): recorded, not judged")
+	r.Assume("routes exist, no client reachable: if at least one attempt reported no-direct the outcome must be not-connected (in any order of the failures); when every failure is some other error the statement is not specific (the code falls back to not-found): recorded, not judged")
 	r.Assume("a reachable client of H must actually be reached (DialClient may not fail while some route's client accepts the stream)")
 	rng := r.Rand("c27")
 
@@ -640,6 +640,13 @@ func runCase(f *fixture, name string, slots [3]outcome, rng *rand.Rand, idx int)
 		case nRoute > 0 && nNoDirect == nRoute:
 			if !errors.Is(derr, tun.ErrTunnelClientNotConnected) {
 				c.viol("nodirect-not-notconnected", fmt.Sprintf("slots %v: routes exist and every client is not connected, DialClient reported %v", rep.Slots, derr))
+			}
+		case nRoute > 0 && nNoDirect >= 1:
+			// routes exist, none reachable, at least one of them said "client not
+			// connected": the outcome is not-connected wherever that route sits
+			errClass = fmt.Sprintf("nodirect=%d,error=%d -> judged not-connected", nNoDirect, nError)
+			if !errors.Is(derr, tun.ErrTunnelClientNotConnected) {
+				c.viol("mixed-nodirect-not-notconnected", fmt.Sprintf("slots %v: routes exist, no client is reachable and %d of the attempts reported no-direct, DialClient reported %v", rep.Slots, nNoDirect, derr))
 			}
 		case nRoute > 0:
 			switch {
